@@ -1659,7 +1659,7 @@ impl ASN1Value {
         };
         let element_type_name = type_name
             .filter(|name| {
-                !matches!(*s.element_type, ASN1Type::ElsewhereDeclaredType(_))
+                !matches!(&*s.element_type, ASN1Type::ElsewhereDeclaredType(e) if e.constraints.is_empty())
                     && names_type_assignment(name)
             })
             .map(|name| INTERNAL_ITEM_TYPE_NAME_PREFIX.to_owned() + name);
